@@ -1109,6 +1109,9 @@ def build_unit(unit, repo, variant=None, isolate=()):
             # a statement fragment of a function that cannot be lifted as a whole (generic over serde
             # traits): the matched source text is placed verbatim inside the given wrapper function
             ms = list(re.finditer(spec['fragment'], text, re.S if 'S' in spec.get('fragment_flags', '') else 0))
+            nth = spec.get('fragment_nth')
+            if nth and len(ms) == spec.get('fragment_count', len(ms)) and len(ms) >= nth:
+                ms = [ms[nth - 1]]      # the n-th of several identical statements (e.g. a block that the source repeats)
             if len(ms) != 1:
                 if _iid in isolate:
                     # the statement fragment cannot even be located in this tree: nothing can be woven for the item
